@@ -1,19 +1,165 @@
 package main
 
+import (
+	"strings"
+
+	"golang.org/x/tools/go/ssa"
+)
+
 func init() {
 	register("C17", PropMeta{
 		Title: "Truncated files and failing I/O produce errors, never different answers",
-		Rules: map[string]string{},
+		Explanation: "Error-flow analysis (E-ERR) over every call in the I/O-carrying packages (hdf5, core, structures, writer, utils) whose callee returns an error: " +
+			"the error value is followed through phis, spilled variables and wrapping calls; its non-nil edge is walked forward and must end only in returns of a non-nil error. " +
+			"Discarded results, error edges that rejoin the normal path (continue / break / fall-through / return nil) and errors converted into plain values are reported per call site.",
+		DoesNotDecide: "that the value returned on the intact file is right; each truncation length individually (the rule covers every call site instead); errors lost through struct fields or channels (counted as escapes)",
+		Rules: map[string]string{
+			"C17.1": "every error result of a call is looked at: not discarded with `_`, not assigned and left unused (cleanup Close on an error path or in a deferred cleanup closure excepted)",
+			"C17.2": "the non-nil edge of every error test ends in a return of a non-nil error: never continue/break/fall-through/return nil, never a conversion into a plain value",
+			"C17.3": "where io.EOF is tolerated after a ReadAt, the byte count is compared against the length the code goes on to use (see C17.3 instances)",
+		},
 	}, ruleC17ErrFlow)
+
+	// ---- frozen exceptions, each confirmed by reading ----
+	const p = "C17"
+	except(p, "C17.2", "core.FilterPipelineMessage.ApplyFilters#core.applyFilter#swallowed", "format rule: a filter whose 'optional' flag bit is set may fail and is skipped; the skip is guarded by that flag (checked by C08.5)")
+	except(p, "C17.2", "core.ParseDatatypeMessage#core.calculateCompoundPropsLen#swallowed", "pure in-memory length computation on bytes already read; the fallback takes the rest of the message and the member parser reports malformed input; no I/O result involved")
+	except(p, "C17.2", "hdf5.upsertAttributeMessage#core.AddMessageToObjectHeader#swallowed", "the 'object header full' error is handled by migrating to dense storage, whose own error is returned; every other error is wrapped and returned")
+	except(p, "C17.2", "hdf5.FileWriter.resolveObjectAddress#structures.LocalHeap.GetString#swallowed", "an unreadable name cannot match; the loop falls through to the 'object not found' error, so the caller still gets an error")
+	except(p, "C17.2", "hdf5.loadObject#structures.LocalHeap.GetString#swallowed", "redirect detection only; on failure the node is loaded as a real group, which reads the same name through the same heap and returns that error")
+	except(p, "C17.2", "hdf5.loadTraditionalGroup#core.ReadObjectHeader#swallowed", "heap stays nil and the function returns 'could not find local heap'")
+	for _, f := range []string{"core.DeleteCompactAttribute", "core.FindCompactAttribute", "core.ModifyCompactAttribute", "hdf5.deleteCompactAttributeFromHeader", "hdf5.writeCompactAttribute"} {
+		except(p, "C17.2", f+"#core.ParseAttributeMessage#swallowed", "in-memory parse of an already-read header message while searching by name; an unparsable message cannot be the named attribute; no I/O result involved")
+	}
+	except(p, "C17.2", "core.ParseAttributesFromMessages#core.ParseAttributeInfoMessage#swallowed", "in-memory parse of an already-read message, no I/O result involved; the silent loss of dense attributes on an unsupported encoding is reported under C06.3")
+	except(p, "C17.2", "core.ParseAttributesFromMessages#core.ParseAttributeMessage#swallowed", "in-memory parse of an already-read message, no I/O result involved; the silent loss of an attribute with an unsupported encoding is reported under C06.3")
+	except(p, "C17.2", "core.findContinuations#core.parseContinuationMessage#swallowed", "in-memory parse of an already-read message, no I/O result involved; reported under C06.3")
+	except(p, "C17.2", "hdf5.readSignature#(io.ReaderAt).ReadAt#converted", "the empty signature matches no known signature: loadGroup/loadObject fall to ReadObjectHeader, which repeats the read and returns its error; loadChildren returns 'unknown B-tree signature'")
+	except(p, "C17.2", "hdf5.isHDF5File#(utils.ReaderAt).ReadAt#converted", "false makes Open return 'not an HDF5 file'")
+	except(p, "C17.1", "hdf5.CreateForWrite#dynamic#discarded", "not an I/O result: a FileWriterOption applied to a temporary in-memory writer to collect configuration (plumbing is checked by C19.2)")
+	except(p, "C17.1", "hdf5.FileWriter.Close#hdf5.FileWriter.StopIncrementalRebalancing#discarded", "not an I/O result: the callee is a constant `return nil`")
+	except(p, "C17.1", "hdf5.FileWriter.CreateHardLink#hdf5.writeObjectHeaderWithRefCount#discarded", "best-effort rollback write on a path that already returns the primary error (every return after it is a non-nil error)")
+}
+
+// callees whose error result cannot be an I/O outcome (in-memory writers, error constructors)
+func infallibleCallee(name string) bool {
+	if hasPrefixAny(name, "(*strings.Builder).", "(*bytes.Buffer).Write", "(hash.Hash).Write", "(hash.Hash32).Write") {
+		return true
+	}
+	switch name {
+	case "fmt.Fprintf", "fmt.Fprintln", "fmt.Fprint", "fmt.Errorf", "errors.New", "errors.Join":
+		return true
+	}
+	return false
+}
+
+func ioPackage(fn *ssa.Function) bool {
+	switch shortPkg(fnPkgPath(fn)) {
+	case "hdf5", "core", "structures", "writer", "utils":
+		return true
+	}
+	return false
+}
+
+// closeLike: resource release calls whose error may be dropped during cleanup
+func closeLike(callee string) bool {
+	return strings.HasSuffix(callee, ".Close") || strings.HasSuffix(callee, ").Close")
+}
+
+// onErrorPathOnly: every return reachable from the call returns a non-nil error.
+func onErrorPathOnly(call ssa.Instruction) bool {
+	fn := call.Parent()
+	idx := errResultIndex(fn.Signature)
+	if idx < 0 {
+		return false
+	}
+	blocks := map[*ssa.BasicBlock]bool{call.Block(): true}
+	for _, s := range call.Block().Succs {
+		for b := range reachableFrom(s, nil) {
+			blocks[b] = true
+		}
+	}
+	n := 0
+	for b := range blocks {
+		if ret, ok := b.Instrs[len(b.Instrs)-1].(*ssa.Return); ok {
+			if b == call.Block() && instrIndex(ret) < instrIndex(call) {
+				continue
+			}
+			n++
+			if mayBeNil(ret.Results[idx], map[ssa.Value]bool{}) {
+				return false
+			}
+		}
+	}
+	return n > 0
+}
+
+// deferredCleanupClosure: fn is an anonymous function used only as the target of defer statements.
+func deferredCleanupClosure(fn *ssa.Function) bool {
+	if fn.Parent() == nil {
+		return false
+	}
+	used := false
+	ok := true
+	instrs(fn.Parent(), func(in ssa.Instruction) {
+		mc, isMC := in.(*ssa.MakeClosure)
+		if isMC && mc.Fn == fn {
+			for _, ref := range *mc.Referrers() {
+				if _, isDefer := ref.(*ssa.Defer); isDefer {
+					used = true
+				} else if _, dbg := ref.(*ssa.DebugRef); !dbg {
+					ok = false
+				}
+			}
+		}
+		if d, isD := in.(*ssa.Defer); isD {
+			if f, isF := d.Call.Value.(*ssa.Function); isF && f == fn {
+				used = true
+			}
+		}
+	})
+	return used && ok
 }
 
 func ruleC17ErrFlow(c *Ctx, r *Result) {
-	sites := c.ErrSites(c.LibFuncs())
-	for _, s := range sites {
-		st := Holds
-		if s.Kind != ErrPropagated {
-			st = Violated
+	var fns []*ssa.Function
+	for _, fn := range c.LibFuncs() {
+		if ioPackage(fn) {
+			fns = append(fns, fn)
 		}
-		r.Add("C17.2", c.Name(s.Caller)+"#"+s.Callee+"#"+s.Kind, c.InstrPos(s.Call), st, s.Detail)
 	}
+	sites := c.ErrSites(fns)
+	for _, s := range sites {
+		if infallibleCallee(s.Callee) {
+			continue
+		}
+		base := c.Name(s.Caller) + "#" + s.Callee
+		pos := c.InstrPos(s.Call)
+		switch s.Kind {
+		case ErrPropagated:
+			r.Hold("C17.2", base+"#propagated", pos, "")
+		case ErrEscapes:
+			r.Undec("C17.2", base+"#escapes", pos, "error stored in a field / captured variable; not followed")
+		case ErrDiscarded, ErrDeferred:
+			switch {
+			case closeLike(s.Callee) && s.Kind == ErrDeferred:
+				r.Except("C17.1", base+"#deferred-close", pos, "idiom: deferred Close of a handle on the way out")
+			case closeLike(s.Callee) && onErrorPathOnly(s.Call):
+				r.Except("C17.1", base+"#close-on-error-path", pos, "idiom: Close during cleanup on a path where every return carries the primary error")
+			case closeLike(s.Callee) && deferredCleanupClosure(s.Caller):
+				r.Except("C17.1", base+"#close-in-deferred-cleanup", pos, "idiom: Close inside a closure that is only ever deferred")
+			default:
+				r.Viol("C17.1", base+"#discarded", pos, s.Detail)
+			}
+		case ErrEOFTol:
+			r.Hold("C17.2", base+"#eof-tolerated", pos, "io.EOF tolerated; completeness of the short read is decided by C17.3")
+			checkShortRead(c, r, s)
+		default:
+			r.Viol("C17.2", base+"#"+s.Kind, pos, s.Detail)
+		}
+	}
+	r.Floor("C17.2", 600)
 }
+
+// checkShortRead is filled in by the index/bounds engine (C17.3).
+var checkShortRead = func(c *Ctx, r *Result, s *ErrSite) {}
